@@ -26,7 +26,7 @@ ASSUMPTIONS = ['ypv/recog.py (hand lexer + set-of-end-positions recogniser writt
 
 def plan(tier, seed):
     if tier == 'quick':
-        return {'n': 480, 'deadline': 50, 'case_timeout': 120,
+        return {'n': 480, 'deadline': 150, 'case_timeout': 120,
                 'floor': {'distinct_nontrivial': 20000, 'strings_checked': 60000, 'rejected_by_recogniser': 20000,
                           'accepted_by_both': 3000, 'edit_trunc': 10000, 'edit_del': 5000, 'edit_dup': 5000, 'edit_swap': 3000}}
     return {'n': 8000, 'deadline': 560, 'case_timeout': 120,
